@@ -160,4 +160,13 @@ LeafTable(D, mn, path) ==
   UNION { UNION { IF inst.of.k = "mod" THEN LeafTable(D, inst.of.ref, Append(path, Elems(inst)[k]))
                   ELSE {<<Append(path, Elems(inst)[k]), inst.of.ref>>}
                 : k \in 1..Len(Elems(inst)) } : inst \in Range(m.insts) }
+
+(* parameter values the designer gave to leaf devices (instances carrying a `pv` field: a sequence of <<name, integer>>): every element of
+   an array / pair is the same device with the same parameters *)
+RECURSIVE LeafParams(_, _, _)
+LeafParams(D, mn, path) ==
+  LET m == D.mods[mn] IN
+  UNION { UNION { IF inst.of.k = "mod" THEN LeafParams(D, inst.of.ref, Append(path, Elems(inst)[k]))
+                  ELSE IF "pv" \in DOMAIN inst THEN {<<Append(path, Elems(inst)[k]), {<<inst.pv[j][1], inst.pv[j][2]>> : j \in 1..Len(inst.pv)}>>} ELSE {}
+                : k \in 1..Len(Elems(inst)) } : inst \in Range(m.insts) }
 =============================================================================
